@@ -59,6 +59,13 @@ func (mgr *TopicManager) subscribe(topics []string, qoss []byte, clientID string
 	mgr.Lock()
 	defer mgr.Unlock()
 
+	// validate all topic filters before changing anything, so that a packet with
+	// an invalid filter is rejected as a whole instead of being applied partially.
+	for _, t := range topics {
+		if _, err := mgr.getLevels(t); err != nil {
+			return err
+		}
+	}
 	for i, t := range topics {
 		if err := mgr.insert(t, qoss[i], clientID); err != nil {
 			return err
@@ -71,12 +78,15 @@ func (mgr *TopicManager) unsubscribe(topics []string, clientID string) error {
 	mgr.Lock()
 	defer mgr.Unlock()
 
+	// an invalid filter can not have been subscribed: skip it and keep removing
+	// the remaining ones, the first error is still reported to the caller.
+	var firstErr error
 	for _, t := range topics {
-		if err := mgr.remove(t, clientID); err != nil {
-			return err
+		if err := mgr.remove(t, clientID); err != nil && firstErr == nil {
+			firstErr = err
 		}
 	}
-	return nil
+	return firstErr
 }
 
 // findSubscribers is used to find all clients that subscribe a certain topic directly or use wildcard.
